@@ -152,6 +152,8 @@ class SimSocket:
     def send(self, data):
         net = self.net
         sim = net.sim
+        if net.yield_hook is not None:
+            net.yield_hook()
         sim.charge("raw_io")
         conn = self.conn
         if self.closed or conn is None:
@@ -231,6 +233,8 @@ class SimSocket:
     def recv(self, n):
         net = self.net
         sim = net.sim
+        if net.yield_hook is not None:
+            net.yield_hook()        # pre-emption point of the thread scheduler (two caller threads, one runs at a time)
         sim.charge("raw_io")
         if self.type == net.mod.SOCK_DGRAM:
             return self._udp_recv(n)
@@ -400,6 +404,7 @@ class SimNet:
     def __init__(self, sim: Sim, choices=None, faults=None):
         self.sim = sim
         self.mod = SimSocketModule(self)
+        self.yield_hook = None     # set by a thread scheduler: called at every raw send/recv
         self.hosts = {}            # (ip, port) -> device with .accept(conn)
         self.dns = {}              # name -> ip
         self.local_addrs = [(4, "192.168.1.10")]
